@@ -6,6 +6,8 @@ import (
 	"fmt"
 	"github.com/tencent/goom/internal/bytecode/memory"
 	"os"
+	"reflect"
+	"runtime"
 	"strings"
 	"sync"
 
@@ -78,6 +80,9 @@ func (w *lifeWorld) sym(t string) string {
 	switch w.kind {
 	case "func":
 		return fn.Pkg + "." + strings.ToUpper(t)
+	case "literal":
+		// (the symbol of a function literal is numbered by the compiler: ask the runtime)
+		return runtime.FuncForPC(reflect.ValueOf(map[string]interface{}{"f": fn.LitF, "g": fn.LitG, "h": fn.LitH}[t]).Pointer()).Name()
 	case "method", "fmvalue":
 		return fn.Pkg + ".(*S)." + strings.ToUpper(t)
 	case "uefunc":
@@ -93,7 +98,7 @@ func (w *lifeWorld) sym(t string) string {
 func (w *lifeWorld) phSym(t string) string {
 	T := strings.ToUpper(t)
 	switch w.kind {
-	case "func":
+	case "func", "literal":
 		return fn.Pkg + ".Ph" + T
 	case "method", "uemethod":
 		return fn.Pkg + ".PhM" + T
@@ -128,6 +133,8 @@ func (w *lifeWorld) lookupHandle(b, t string) mocker.ExportedMocker {
 	switch w.kind {
 	case "func":
 		return bl.Func(map[string]interface{}{"f": fn.F, "g": fn.G, "h": fn.H}[t])
+	case "literal":
+		return bl.Func(map[string]interface{}{"f": fn.LitF, "g": fn.LitG, "h": fn.LitH}[t])
 	case "generic":
 		return bl.Func(map[string]interface{}{"f": fn.GenF[int], "g": fn.GenG[int], "h": fn.GenH[int]}[t])
 	case "method":
@@ -165,7 +172,7 @@ func (w *lifeWorld) ueLookup(b, t string) mocker.UnExportedMocker {
 
 func (w *lifeWorld) originVar(t string) interface{} {
 	switch w.kind {
-	case "func":
+	case "func", "literal":
 		return map[string]interface{}{"f": &fn.OF, "g": &fn.OG, "h": &fn.OH}[t]
 	case "method", "uemethod":
 		return map[string]interface{}{"f": &fn.OMF, "g": &fn.OMG, "h": &fn.OMH}[t]
@@ -176,7 +183,7 @@ func (w *lifeWorld) originVar(t string) interface{} {
 
 func (w *lifeWorld) callOrigin(t string, a int) int {
 	switch w.kind {
-	case "func":
+	case "func", "literal":
 		return map[string]func(int) int{"f": fn.OF, "g": fn.OG, "h": fn.OH}[t](a)
 	case "method", "uemethod":
 		return map[string]func(*fn.S, int) int{"f": fn.OMF, "g": fn.OMG, "h": fn.OMH}[t](&fn.S{Tag: 7}, a)
@@ -353,6 +360,8 @@ func (w *lifeWorld) call(t string, a int) (res int) {
 	switch w.kind {
 	case "func":
 		return map[string]func(int) int{"f": fn.F, "g": fn.G, "h": fn.H}[t](a)
+	case "literal":
+		return map[string]func(int) int{"f": fn.LitF, "g": fn.LitG, "h": fn.LitH}[t](a)
 	case "generic":
 		// (the spec's call argument is always 0 in this family; the int64 instantiations are the bystanders)
 		if fn.GenF[int64]() != 1000 || fn.GenG[int64]() != 2000 || fn.GenH[int64]() != 3000 {
@@ -529,6 +538,7 @@ func init() {
 	worlds["life-keep"] = func() []World {
 		return []World{&lifeWorld{kind: "func"}, &lifeWorld{kind: "method"}, &lifeWorld{kind: "uefunc"}, &lifeWorld{kind: "uemethod"}, &lifeWorld{kind: "generic"}}
 	}
+	worlds["life-literal"] = func() []World { return []World{&lifeWorld{kind: "literal"}} }
 	worlds["life-fmvalue"] = func() []World { return []World{&lifeWorld{kind: "fmvalue"}} }
 	worlds["life-generic"] = func() []World { return []World{&lifeWorld{kind: "generic"}} }
 }
